@@ -6,7 +6,7 @@ from typing import Dict, List, Optional, Set
 
 from . import astu
 from .facts import Run, normal
-from .interp import Ctx, analyse_function, analyse_method
+from .interp import Ctx, Frame, analyse_function, analyse_method
 from .model import AnalysisError, iter_functions
 from .report import RuleResult
 from .terms import Child, Const, New, Sym, Val
@@ -122,10 +122,25 @@ def rule_SH(run: Run) -> RuleResult:
             f"looks up {sorted(looked)} in request.options={on_opts}; falls back to False={falls_false}", nec)
     dis = repo.func("labrea.cache.disabled")
     mapping = {}
-    for n in ast.walk(dis.node):
-        if isinstance(n, ast.Dict):
-            for k, v in zip(n.keys, n.values):
-                mapping[ast.unparse(k)] = ast.unparse(v)
+    import re as _re
+
+    def _collect(t):
+        """request class -> handler function, from every dict term handed to handle()"""
+        if isinstance(t, Sym):
+            if t.head == "item" and len(t.args) == 2:
+                mk = _re.match(r"class<.*\.(\w+)>$", t.args[0].key())
+                mv = _re.match(r"Fn\((\w+);", t.args[1].key())
+                if mk and mv:
+                    mapping[mk.group(1)] = mv.group(1)
+            for a_ in t.args:
+                _collect(a_)
+    for p_ in analyse_function(Ctx(repo), dis.module, dis.node):
+        for e_ in p_.events:
+            if e_.kind == "call" and e_.text == "handle":
+                for a_ in e_.args:
+                    _collect(a_)
+        if p_.ret is not None:
+            _collect(p_.ret)
     want = {"CacheSetRequest": "_disabled_set_cache_handler", "CacheGetRequest": "_disabled_get_cache_handler", "CacheExistsRequest": "_disabled_exists_cache_handler"}
     res.add("labrea.cache.disabled:swaps exactly the three cache handlers for their disabled twins", mapping == want, cm.relpath, dis.node.lineno, f"{mapping}", nec)
     lm = repo.modules["labrea.logging"]
@@ -153,18 +168,27 @@ def rule_SH(run: Run) -> RuleResult:
     ok = ok and saw_on and saw_off
     res.add("labrea.logging._builtin_logging_handler:tests LABREA.LOGGING.DISABLED first", ok, lm.relpath, bh.node.lineno,
             why or "the switch is looked up in request.options before anything is emitted; one outcome emits, the other does not", nec)
-    logs = [c for c in astu.calls_in(bh.node) if astu.short_name(c) == "log"]
-    ok = len(logs) == 1 and ast.unparse(logs[0]) == "logging.getLogger(request.name).log(request.level, request.msg)"
-    res.add("labrea.logging._builtin_logging_handler:emits request.msg at request.level on the named logger", ok, lm.relpath, bh.node.lineno, f"{[ast.unparse(c) for c in logs]}", nec)
+    logs = [(e.target.key() if e.target is not None else "", [a.key() for a in e.args]) for p in bps if p.status == "ret" for e in p.events if e.kind == "call" and e.text == "log"]
+    ok = bool(logs) and all(t == "call:logging.getLogger(attr:name(request))" and a == ["attr:level(request)", "attr:msg(request)"] for t, a in logs)
+    res.add("labrea.logging._builtin_logging_handler:emits request.msg at request.level on the named logger", ok, lm.relpath, bh.node.lineno, f"{logs[:2]}", nec)
     ld = repo.func("labrea.logging.disabled")
-    rets = [ast.unparse(r.value) for r in ast.walk(ld.node) if isinstance(r, ast.Return)]
-    res.add("labrea.logging.disabled:swaps the log handler for the disabled one", rets == ["runtime.handle(LogRequest, _disabled_logging_handler)"], lm.relpath, ld.node.lineno, f"{rets}", nec)
+    lps = analyse_function(Ctx(repo), ld.module, ld.node)
+    CUR = "call:setdefault(global<labrea.runtime._RUNTIMES>,call:threading.current_thread,new:Runtime(Const(None)))"
+    rets = [p.ret.key() if p.status == "ret" and p.ret is not None else p.status for p in lps]
+    ok = bool(rets) and all(r == f"call:handle({CUR},class<labrea.logging.LogRequest>,Fn(_disabled_logging_handler;))" for r in rets)
+    res.add("labrea.logging.disabled:swaps the log handler for the disabled one", ok, lm.relpath, ld.node.lineno, f"{[r[:90] for r in rets]}", nec)
     # effects switch
     cmod = repo.modules["labrea.computation"]
-    sw = cmod.names.get("_EFFECTS_DISABLED")
-    ok = sw is not None and sw[0] == "var" and ast.unparse(sw[1]) == "Option('LABREA.EFFECTS.DISABLED', False)"
-    res.add("labrea.computation._EFFECTS_DISABLED:Option('LABREA.EFFECTS.DISABLED', False)", ok, cmod.relpath, 1, ast.unparse(sw[1]) if sw else "missing", nec)
     co = repo.cls("Computation")
+    # the switch consulted by Computation is the option LABREA.EFFECTS.DISABLED with default False (read off the paths)
+    sw_terms = set()
+    for p in run.paths(co, "evaluate"):
+        for e in p.events:
+            if e.kind in ("unfold", "op") and e.op == "evaluate" and isinstance(e.target, New) and e.target.cls.name == "Option" and e.target.attrs.get("key") is not None \
+                    and "EFFECTS" in e.target.attrs["key"].key():
+                sw_terms.add((e.target.attrs["key"].key(), e.target.attrs["default"].key() if e.target.attrs.get("default") is not None else None, e.opts.key() if e.opts is not None else None))
+    ok = sw_terms == {("Const('LABREA.EFFECTS.DISABLED')", "New(Value;value=Const(False))", "options")}
+    res.add("labrea.computation._EFFECTS_DISABLED:Option('LABREA.EFFECTS.DISABLED', False)", ok, cmod.relpath, 1, f"{sorted(sw_terms)}", nec)
     for op in ("evaluate", "validate"):
         ps = normal(run.paths(co, op))
         with_e = [p for p in ps if any(e.kind == "op" and isinstance(e.target, Child) and e.target.path == "effect" for e in p.events)]
@@ -191,11 +215,21 @@ def rule_SH(run: Run) -> RuleResult:
     ds = repo.cls("Dataset")
     for nm, val in (("disable_effects", "True"), ("enable_effects", "False")):
         fn = ds.methods.get(nm)
-        ok = fn is not None and [ast.unparse(s) for s in _first_stmts(fn)] == [f"self._effects_disabled = {val}"]
+        ok = fn is not None
+        if ok:
+            tps = analyse_function(Ctx(repo), ds.module, fn, cls=ds)
+            ok = bool(tps) and all(p.status == "ret" and [(e.args[1].key(), e.target.key() if e.target is not None else None) for e in p.events
+                                                           if e.kind == "store" and len(e.args) == 2 and e.args[0].key() == "self"]
+                                   == [(Const("_effects_disabled").key(), f"Const({val})")] for p in tps)
         res.add(f"labrea.dataset.Dataset.{nm}:sets the per-dataset toggle", ok, ds.module.relpath, fn.lineno if fn else 0, "", nec)
     df = repo.cls("DatasetFactory")
     nc = df.methods.get("nocache")
-    ok = nc is not None and [ast.unparse(r.value) for r in ast.walk(nc) if isinstance(r, ast.Return)] == ["self.update(cache=NoCache())"]
+    ok = nc is not None
+    if ok:
+        nps = analyse_function(Ctx(repo), df.module, nc, cls=df)
+        # a new factory whose cache is a NoCache, everything else carried over from this factory
+        ok = bool(nps) and all(p.status == "ret" and p.ret is not None and p.ret.key().startswith("new:DatasetFactory(") and "new:NoCache" in p.ret.key()
+                               and "attr:dispatch(self)" in p.ret.key() and "attr:options(self)" in p.ret.key() for p in nps)
     res.add("labrea.dataset.DatasetFactory.nocache:uses NoCache", ok, ds.module.relpath, nc.lineno if nc else 0, "", nec)
     return res
 
@@ -351,21 +385,32 @@ def rule_WR(run: Run) -> RuleResult:
         res.add(f"labrea.types.{an}.__init_subclass__:replaces {op} by a wrapper issuing {req}(self, options).run()", ok_super and guard and ok_inner and ok_install and order_ok,
                 c.module.relpath, isc.lineno, f"super={ok_super} guard={guard} wrapper={ok_inner} install={ok_install} saved-before-replaced={order_ok}" + ("; " + "; ".join(sorted(set(why))) if why else ""), nec)
     # default handlers call the saved implementation of the matching field
+    regs = astu.default_handler_registrations(repo)
+    REQ_OF = {"_evaluate_request": "EvaluateRequest", "_validate_request": "ValidateRequest", "_keys_request": "KeysRequest", "_explain_request": "ExplainRequest"}
+    handler_quals = set()
     for hn, (field, saved) in HANDLERS.items():
-        fi = repo.func(f"labrea.types.{hn}")
-        calls = [c for c in astu.calls_in(fi.node) if astu.short_name(c) == saved]
-        ok = len(calls) == 1 and ast.unparse(calls[0]) == f"request.{field}.{saved}(request.options)"
-        res.add(f"labrea.types.{hn}:calls request.{field}.{saved}(request.options)", ok, fi.module.relpath, fi.node.lineno, f"{[ast.unparse(c) for c in calls]}", nec)
+        hq = regs.get(REQ_OF[hn], [])
+        if len(hq) != 1:
+            res.add(f"labrea.types.{hn}:calls request.{field}.{saved}(request.options)", False, "labrea/types.py", 0, f"default handlers of {REQ_OF[hn]}: {hq}", nec)
+            continue
+        handler_quals.add(hq[0])
+        fi = repo.func(hq[0])
+        rp = [a.arg for a in fi.node.args.args][0]
+        want = f"call:{saved}(attr:{field}({rp}),attr:options({rp}))"
+        hps = analyse_function(Ctx(repo), fi.module, fi.node)
+        calls = [(e.target.key() if e.target is not None else "", [a.key() for a in e.args]) for p in hps for e in p.events if e.kind == "call" and e.text == saved and not e.failed]
+        ok = bool(calls) and all(c == (f"attr:{field}({rp})", [f"attr:options({rp})"]) for c in calls)
+        res.add(f"labrea.types.{hn}:calls request.{field}.{saved}(request.options)", ok, fi.module.relpath, fi.node.lineno, f"{calls[:2]}", nec)
         if hn != "_evaluate_request":
-            rets = [ast.unparse(r.value) for r in ast.walk(fi.node) if isinstance(r, ast.Return) and r.value is not None]
-            res.add(f"labrea.types.{hn}:returns the implementation's result unchanged", rets == [f"request.{field}.{saved}(request.options)"], fi.module.relpath, fi.node.lineno, f"{rets}", nec)
+            rets = [p.ret.key() if p.status == "ret" and p.ret is not None else p.status for p in hps]
+            res.add(f"labrea.types.{hn}:returns the implementation's result unchanged", bool(rets) and all(r == want for r in rets), fi.module.relpath, fi.node.lineno, f"{rets}", nec)
     # the saved implementations are called from nowhere else; the marker is set nowhere else
     marker_users: Dict[str, tuple] = {}
     for m, cls, fn, q in iter_functions(repo):
         for c in astu.calls_in(fn):
             nm = astu.short_name(c)
             if nm in SAVED.values():
-                ok = q in {f"labrea.types.{h}" for h in HANDLERS}
+                ok = q in handler_quals
                 if not ok:
                     res.add(f"{q}:calls {nm} directly", False, m.relpath, c.lineno, ast.unparse(c)[:80] + " bypasses the request", nec)
         for n in astu.walk_no_nested(fn):
@@ -490,7 +535,15 @@ def rule_HD(run: Run) -> RuleResult:
         res.add(f"{r.qualname}:has a module-level default handler", len(hs) >= 1, r.module.relpath, r.node.lineno, f"{hs}", nec)
     rq = repo.cls("Request")
     h = rq.methods.get("handle")
-    ok = h is not None and any(ast.unparse(c) == "handle_by_default(cls, handler)" for c in astu.calls_in(h)) and [ast.unparse(r.value) for r in ast.walk(h) if isinstance(r, ast.Return)] == ["handler"]
+    ok = h is not None
+    if ok:
+        hp_ = astu.param_names(h)[0]
+        c0 = astu.first_param(h)
+        hps = analyse_function(Ctx(repo), rq.module, h)
+        # registers the handler for this request class in the default table and hands the handler back
+        ok = bool(hps) and all(p.status == "ret" and p.ret is not None and p.ret.key() == hp_ and any(
+            e.kind == "store" and len(e.args) == 2 and e.args[0].key() == "global<labrea.runtime._DEFAULT_HANDLERS>" and e.args[1].key() == f"index({c0})"
+            and e.target is not None and e.target.key() == hp_ for e in p.events) for p in hps)
     res.add("labrea.runtime.Request.handle:registers the default and returns the handler", ok, rq.module.relpath, h.lineno if h else 0, "", nec)
     return res
 
@@ -653,15 +706,61 @@ def rule_MF(run: Run) -> RuleResult:
     want_atoms = {"isinstance(MEMBER, Evaluatable)", "NAME.startswith('__')"}
     res.add("labrea.datasetclass:members are the Evaluatable attributes that are not dunder names", set(atoms) == want_atoms, f, 1,
             f"predicate atoms {sorted(atoms)}", nec)
+    from .facts import bool_atoms, eval_bool
     eq = mix.methods.get("__eq__")
     rp = mix.methods.get("__repr__")
-    ok = eq is not None and rp is not None and "self._repr_options == other._repr_options" in ast.unparse(eq) and "isinstance(other, self.__class__)" in ast.unparse(eq) and "self._repr_options" in ast.unparse(rp)
+    ok = eq is not None and rp is not None
+    if ok:
+        oth = astu.param_names(eq)[0]
+        A_, B_ = f"call:isinstance({oth},attr:__class__(self))", f"cmp:Eq(attr:_repr_options(self),attr:_repr_options({oth}))"
+        B2_ = f"cmp:Eq(attr:_repr_options({oth}),attr:_repr_options(self))"
+        for p in analyse_function(Ctx(repo), mix.module, eq, cls=mix):
+            # equal exactly when other is an instance of the same class and the recorded relevant options are equal
+            if p.status != "ret" or p.ret is None:
+                ok = False
+                continue
+            at = dict(Frame.atoms(p.conds))
+            ats = [a_.replace(B2_, B_) for a_ in bool_atoms(p.ret)]
+            if isinstance(p.ret, Const):
+                val = {(True, True): bool(p.ret.v)} if at.get(A_) is True and (at.get(B_) is True or at.get(B2_) is True) else None
+                good = (p.ret.v is False and (at.get(A_) is False or at.get(B_) is False or at.get(B2_) is False)) or (p.ret.v is True and val is not None)
+            else:
+                good = set(ats) | set(at) >= {A_} and (B_ in ats or B_ in at or B2_ in at)
+                for av in (False, True):
+                    for bv in (False, True):
+                        asg = {A_: av, B_: bv, B2_: bv, **{k_: v_ for k_, v_ in at.items()}}
+                        if any(asg.get(k_) != v_ for k_, v_ in at.items()):
+                            continue
+                        r_ = eval_bool(p.ret, asg)
+                        if r_ is not None and r_ != (asg[A_] and asg[B_]):
+                            good = False
+            ok = ok and good
+        ok = ok and all(p.status == "ret" and p.ret is not None and "attr:_repr_options(self)" in p.ret.key() and "attr:__name__(attr:__class__(self))" in p.ret.key()
+                        for p in analyse_function(Ctx(repo), mix.module, rp, cls=mix))
     res.add("labrea.datasetclass._DatasetClassMixin:__eq__ and __repr__ read the recorded relevant options", ok, f, eq.lineno if eq else 0, "", nec)
-    t = ast.unparse(init)
-    ok = "self.__class__.keys(options)" in t and "set_dotted_key(key, value, self._repr_options)" in t
-    res.add("labrea.datasetclass._DatasetClassMixin.__init__:records options restricted to the class's keys", ok, f, init.lineno, "", nec)
+    ips = [p for p in analyse_function(Ctx(repo), mix.module, init, cls=mix) if p.status == "ret"]
+    optp = astu.param_names(init)[0]
+    ok = bool(ips)
+    saw_rec = False
+    for p in ips:
+        st = [e for e in p.events if e.kind == "store" and len(e.args) == 2 and e.args[0].key() == "self" and e.args[1].key() == Const("_repr_options").key()]
+        if not st:
+            ok = False
+        for e in p.events:
+            if e.kind == "call" and e.text.endswith("set_dotted_key"):
+                # key from the class's keys for these options, value looked up under the same key, recorded on the instance
+                k0 = e.args[0].key() if e.args else ""
+                good = len(e.args) == 3 and f"call:keys(attr:__class__(self),{optp})" in k0 and e.args[1].key() == f"call:confectioner.templating.get_dotted_key({k0},{optp})" \
+                    and (e.args[2].key() in ("attr:_repr_options(self)", "dict{}") or "_repr_options" in e.args[2].key())
+                saw_rec = saw_rec or good
+                ok = ok and good
+    res.add("labrea.datasetclass._DatasetClassMixin.__init__:records options restricted to the class's keys", ok and saw_rec, f, init.lineno, "", nec)
     ev = meta.methods.get("evaluate")
-    ok = ev is not None and [ast.unparse(r.value) for r in ast.walk(ev) if isinstance(r, ast.Return)] == [f"{astu.first_param(ev)}({astu.param_names(ev)[0]})"]
+    ok = ev is not None
+    if ok:
+        eps_ = analyse_function(Ctx(repo), meta.module, ev)
+        c0, o0 = astu.first_param(ev), astu.param_names(ev)[0]
+        ok = bool(eps_) and all(p.status == "ret" and p.ret is not None and p.ret.key() == f"call:{c0}({o0})" for p in eps_)
     res.add("labrea.datasetclass._DatasetClassMeta.evaluate:instantiates with the options", ok, f, ev.lineno if ev else 0, "", nec)
     sets = [c for c in astu.calls_in(init) if astu.short_name(c) == "setattr"]
     amap_i = astu.single_assign_map(init)
@@ -674,7 +773,21 @@ def rule_MF(run: Run) -> RuleResult:
             and astu.norm_opts(v.args[0]) == astu.param_names(init)[0]
     res.add("labrea.datasetclass._DatasetClassMixin.__init__:every evaluatable member set to its evaluation", ok, f, init.lineno, f"{[ast.unparse(c) for c in sets]}", nec)
     mi = meta.methods.get("__init__")
-    ok = mi is not None and "setattr(cls, key, Value(val))" in ast.unparse(mi) and "if not isinstance(val, Evaluatable):" in ast.unparse(mi)
+    ok = mi is not None
+    if ok:
+        wrapped = False
+        c0 = astu.first_param(mi)
+        for p in analyse_function(Ctx(repo), meta.module, mi):
+            at = Frame.atoms(p.conds)
+            for e in p.events:
+                if e.kind == "store" and len(e.args) == 2 and e.args[0].key() == c0 and e.target is not None and e.target.key().startswith("New(Value;value="):
+                    inner = e.target.key()[len("New(Value;value="):-1]
+                    # only members that are not evaluatables already are wrapped, and the member is stored back under its own name
+                    if at.get(f"call:isinstance({inner},class<labrea.types.Evaluatable>)") is False and inner.startswith(f"getattr({c0},"):
+                        wrapped = True
+                    else:
+                        ok = False
+        ok = ok and wrapped
     res.add("labrea.datasetclass._DatasetClassMeta.__init__:plain annotated members wrapped as constants", ok, f, mi.lineno if mi else 0, "", nec)
     return res
 
@@ -714,10 +827,32 @@ def rule_PL(run: Run) -> RuleResult:
         gs, ss = c.methods.get("__getstate__"), c.methods.get("__setstate__")
         if locks:
             n += 1
-            ok_g = gs is not None and all(f"'{a}'" in ast.unparse(gs) for a in locks) and "self.__dict__" in ast.unparse(gs)
-            ok_s = ss is not None and all(any(isinstance(s, ast.Assign) and ast.unparse(s.targets[0]) == f"self.{a}" and isinstance(s.value, ast.Call)
-                                              and ("Lock" in ast.unparse(s.value.func) or "_get_lock" in ast.unparse(s.value.func)) for s in ss.body) for a in locks) \
-                and ("self.__dict__.update(" in ast.unparse(ss))
+            ok_g = gs is not None
+            if ok_g:
+                # the pickled state is the instance dictionary with every lock attribute replaced by something that is not a lock
+                for p in analyse_function(Ctx(repo), c.module, gs, cls=c):
+                    k = p.ret.key() if p.status == "ret" and p.ret is not None else ""
+                    if not (k.startswith("dict(") and "attr:__dict__(self)" in k and all(f"item(Const('{a}')," in k and k.index("attr:__dict__(self)") < k.index(f"item(Const('{a}'),") for a in locks)
+                            and "Lock" not in k.split("attr:__dict__(self)", 1)[1]):
+                        ok_g = False
+            ok_s = ss is not None
+            if ok_s:
+                st_p = astu.param_names(ss)[0]
+                for p in analyse_function(Ctx(repo), c.module, ss, cls=c):
+                    if p.status != "ret":
+                        continue
+                    restored = any(e.kind == "call" and e.text == "update" and e.target is not None and e.target.key() == "attr:__dict__(self)" and e.args and e.args[0].key() == st_p for e in p.events) \
+                        or any(e.kind == "store" and len(e.args) == 2 and e.args[0].key() == "self" and e.args[1].key() == Const("__dict__").key() for e in p.events)
+                    relocked = all(any(e.kind == "store" and len(e.args) == 2 and e.args[0].key() == "self" and e.args[1].key() == Const(a).key() and e.target is not None
+                                       and ("Lock" in e.target.key() or "_LOCKS" in e.target.key()) for e in p.events) for a in locks)
+                    # the fresh lock is installed after the saved state (which holds the placeholder) was restored
+                    order = True
+                    if restored and relocked:
+                        i_upd = max(i for i, e in enumerate(p.events) if (e.kind == "call" and e.text == "update") or (e.kind == "store" and len(e.args) == 2 and e.args[1].key() == Const("__dict__").key()))
+                        i_lock = min(i for i, e in enumerate(p.events) if e.kind == "store" and len(e.args) == 2 and e.args[0].key() == "self" and e.args[1].key() in [Const(a).key() for a in locks])
+                        order = i_upd < i_lock
+                    if not (restored and relocked and order):
+                        ok_s = False
             res.add(f"{c.qualname}:lock attribute(s) {sorted(locks)} replaced in __getstate__", ok_g, c.module.relpath, gs.lineno if gs else c.node.lineno, "", nec)
             res.add(f"{c.qualname}:lock attribute(s) {sorted(locks)} re-created in __setstate__, other state restored", ok_s, c.module.relpath, ss.lineno if ss else c.node.lineno,
                     "unconditional `self.<lock> = <new or registered lock>` at the top level of __setstate__" if ok_s else
